@@ -476,7 +476,7 @@ func (lb *LoadBalancer) AddBackend(backendCfg config.BackendConfig) error {
 
 		// Performance optimizations
 		ForceAttemptHTTP2:  true,  // Use HTTP/2 when available
-		DisableCompression: false, // Let backend handle compression
+		DisableCompression: true,  // Let backend handle compression: neither add Accept-Encoding nor decode
 	}
 
 	proxy.Transport = transport
